@@ -181,7 +181,19 @@ func describeValue(v ssa.Value, recv *ssa.Parameter) string {
 			return "recv"
 		}
 		return "param " + x.Name()
+	case *ssa.Extract:
+		if call, ok := x.Tuple.(*ssa.Call); ok && len(call.Call.Args) > 0 {
+			if f, ok := accessorField(call.Call.StaticCallee(), x.Index); ok {
+				return describeValue(call.Call.Args[0], recv) + "." + f
+			}
+		}
 	case *ssa.Call:
+		if len(x.Call.Args) > 0 && !x.Call.IsInvoke() {
+			// o.HasValue(), o.GetValue(), o.Get(): methods that hand out a field of their receiver are that field
+			if f, ok := accessorField(x.Call.StaticCallee(), 0); ok {
+				return describeValue(x.Call.Args[0], recv) + "." + f
+			}
+		}
 		var args []string
 		for _, a := range x.Call.Args {
 			args = append(args, describeValue(a, recv))
@@ -206,6 +218,45 @@ func describeValue(v ssa.Value, recv *ssa.Parameter) string {
 	return "?" + v.Name()
 }
 
+// accessorField: when every return of the method fn hands out, as its i-th result, one and the same field of the receiver (paths
+// that panic return nothing), the name of that field.
+func accessorField(fn *ssa.Function, i int) (string, bool) {
+	if fn == nil || len(fn.Blocks) == 0 || fn.Signature.Recv() == nil || len(fn.Params) == 0 {
+		return "", false
+	}
+	pkg := fn.Pkg
+	if pkg == nil && fn.Origin() != nil {
+		pkg = fn.Origin().Pkg // an instance of a generic method
+	}
+	if pkg == nil || !strings.HasPrefix(pkg.Pkg.Path(), modRoot) {
+		return "", false
+	}
+	recv := fn.Params[0]
+	name, n := "", 0
+	ok := true
+	instrsOf(fn, func(in ssa.Instruction) {
+		ret, isRet := in.(*ssa.Return)
+		if !isRet {
+			return
+		}
+		n++
+		if i >= len(ret.Results) {
+			ok = false
+			return
+		}
+		d := describeValue(ret.Results[i], recv)
+		if !strings.HasPrefix(d, "recv.") || strings.ContainsAny(d[5:], ".(?") {
+			ok = false
+			return
+		}
+		if name != "" && name != d[5:] {
+			ok = false
+		}
+		name = d[5:]
+	})
+	return name, ok && n > 0 && name != ""
+}
+
 func ruleJSONShape(c *Ctx, rule string) {
 	r := c.R
 	type want struct {
@@ -215,8 +266,8 @@ func ruleJSONShape(c *Ctx, rule string) {
 	}
 	wants := []want{
 		{"engine", "Match", map[string]string{"filename": "recv.Filename", "matchNumber": "recv.MatchNumber", "offset": "recv.Offset", "line": "recv.Line",
-			"column": "recv.Column", "value": "recv.Value", "variables": "recv.Variables", "replacement": "recv.Replacement.GetValue()"},
-			map[string]string{"replacement": "recv.Replacement.HasValue()"}},
+			"column": "recv.Column", "value": "recv.Value", "variables": "recv.Variables", "replacement": "recv.Replacement.data"},
+			map[string]string{"replacement": "recv.Replacement.hasValue"}},
 		{"ds", "Range", map[string]string{"start": "recv.Start", "end": "recv.End"}, map[string]string{}},
 	}
 	for _, w := range wants {
